@@ -155,7 +155,7 @@ theorem poll_mid_spec {sc : Sched} {p : Peer} {b' : Nat} {o : Ossl} {v : View}
       simp only at hres1 ⊢
       exact ⟨hres1.2, by simp only [Spot, S0_ctx] at *; omega, by simp⟩
     | reg =>
-      simp only at hres1 ⊢
+      simp only at hres1
       obtain ⟨h1, h2, h3, h4, h5, t, h6⟩ := hres1
       exact ⟨rfl, Or.inr h2, by simp only [Spot, S0_ctx] at *; omega, h3, h4, h5, t, h6⟩
   | err => exact absurd hres1 id
@@ -174,19 +174,126 @@ theorem poll_mid_spec {sc : Sched} {p : Peer} {b' : Nat} {o : Ossl} {v : View}
     rcases pollFlush_phase (p := p) (b' := b') hl2 rfl hk2 rfl ht1 hp1 hh1.early with
       ⟨v2, heq, hrest2, hmono2, hown2, hS⟩ | ⟨v2, heq, hrest2, hmono2, hS, hhd2, hcf2⟩
     · simp only [midBody, hres, heq]
-      refine ⟨hrest2, hme, hmono.trans hmono2, by simpa [ht1, hp1] using Nat.zero_le _, by simp, ?_⟩
-      simp only
+      refine ⟨hrest2, hme, hmono.trans hmono2, by simp [ht1, hp1], by simp, ?_⟩
       refine ⟨hown2, ?_, by simp⟩
       simp only [Spot, rank, S0_ctx] at *
       have := K4 sc 1
       omega
     · simp only [midBody, hres, heq]
-      refine ⟨hrest2, hme, hmono.trans hmono2, by simpa [ht1, hp1] using Nat.zero_le _, by simp, ?_⟩
-      simp only
+      refine ⟨hrest2, hme, hmono.trans hmono2, by simp [ht1, hp1], by simp, ?_⟩
       refine ⟨rfl, ?_, hhd2, hcf2⟩
       simp only [Spot, rank, S0_ctx] at *
       have h4 := K4 sc 1
       have : sc.dfh + sc.df < K sc := by unfold K; omega
       omega
+
+theorem pollHandshake_flush (sc : Sched) (o : Ossl) (v : View) : pollHandshake sc .flush o v =
+    (match pollFlush sc o v with
+      | (o, v, .ready ()) => (.done, o, v, .ready ())
+      | (o, v, .pending p) => (.flush, o, v, .pending p)
+      | (o, v, .err) => (.failed, o, v, .err)
+      | (o, v, .panic) => (.failed, o, v, .panic)) := rfl
+
+/-- one poll in state `flush` (the post-handshake flush was left `Pending`) -/
+theorem poll_flush_spec {sc : Sched} {p : Peer} {b' : Nat} {o : Ossl} {v : View}
+    (hr : Rest sc p b' .flush o v) :
+    PollPost sc p b' .flush o v (pollHandshake sc .flush o v).1 (pollHandshake sc .flush o v).2.1
+      (pollHandshake sc .flush o v).2.2.1 (pollHandshake sc .flush o v).2.2.2 := by
+  obtain ⟨hl, hc, hk, hh, ht, hp, he⟩ := hr
+  rw [pollHandshake_flush]
+  rcases pollFlush_phase (p := p) (b' := b') hl hc hk hh ht hp he with
+    ⟨v2, heq, hrest2, hmono2, hown2, hS⟩ | ⟨v2, heq, hrest2, hmono2, hS, hhd2, hcf2⟩
+  · simp only [heq]
+    refine ⟨hrest2, rfl, hmono2, Nat.le_refl _, by simp, ?_⟩
+    refine ⟨hown2, ?_, by simp⟩
+    simp only [Spot]; omega
+  · simp only [heq]
+    refine ⟨hrest2, rfl, hmono2, Nat.le_refl _, by simp, ?_⟩
+    refine ⟨rfl, ?_, hhd2, hcf2⟩
+    simp only [Spot, rank]
+    have h4 := K4 sc 0
+    have : sc.dfh + sc.df < K sc := by unfold K; omega
+    omega
+
+/-- one poll in state `start`, provided the engine cannot finish inside this first call (otherwise the
+`StartedHandshake::Done` arm returns the stream unflushed, see `Cex.C15.done_path_unflushed`) -/
+theorem poll_start_spec {sc : Sched} {p : Peer} {b' : Nat} {o : Ossl} {v : View}
+    (hr : Rest sc p b' .start o v) (hfuel : o.tape.length + o.post < sc.fuel)
+    (hnd : (sslDoHandshake sc sc.fuel { o with ctx := true } v).2.2 ≠ .ok ()) :
+    PollPost sc p b' .start o v (pollHandshake sc .start o v).1 (pollHandshake sc .start o v).2.1
+      (pollHandshake sc .start o v).2.2.1 (pollHandshake sc .start o v).2.2.2 := by
+  obtain ⟨hl, hc, hk, hph⟩ := hr
+  have hhs : Hs o v := hph
+  have hg : Good sc p b' { o with ctx := true } v :=
+    ⟨⟨hl.lim, hl.direct, hl.ctrok, hl.open_tx, hl.open_rx, hl.clean, hl.nobuf⟩,
+     ⟨hhs.nohs, hhs.early, hhs.flushed⟩, rfl, by
+       obtain ⟨a, b, a', hk⟩ := hk
+       exact ⟨a, b, a', ⟨hk.tx, hk.txp, hk.rx, hk.rxp, hk.align⟩⟩⟩
+  have hspec := doHs_spec sc p b' sc.fuel { o with ctx := true } v hg hfuel
+  rw [pollHandshake_start]
+  generalize hres : sslDoHandshake sc sc.fuel { o with ctx := true } v = res at hspec hnd
+  obtain ⟨o1, v1, r⟩ := res
+  obtain ⟨⟨hl1, hh1, hc1, hk1⟩, hme, hmono, hmeas, hres1⟩ := hspec
+  simp only at hl1 hh1 hc1 hk1 hme hmono hmeas hres1 hnd
+  have hloc1 : Local sc { o1 with ctx := false } v1 :=
+    ⟨hl1.lim, hl1.direct, hl1.ctrok, hl1.open_tx, hl1.open_rx, hl1.clean, hl1.nobuf⟩
+  have hlink1 : ∃ a b a', Link { o1 with ctx := false } v1 p a b a' b' := by
+    obtain ⟨a, b, a', hk⟩ := hk1
+    exact ⟨a, b, a', ⟨hk.tx, hk.txp, hk.rx, hk.rxp, hk.align⟩⟩
+  have hrest1 : Rest sc p b' .mid { o1 with ctx := false } v1 :=
+    ⟨hloc1, rfl, hlink1, ⟨hh1.nohs, hh1.early, hh1.flushed⟩⟩
+  cases r with
+  | ok u => cases u; exact absurd rfl hnd
+  | err => exact absurd hres1 id
+  | panic => exact absurd hres1 id
+  | wouldBlock pd =>
+    have hS1 : S0 sc o1 v1 ≤ S0 sc o v + sc.dr := by
+      cases pd with
+      | self => simp only at hres1; have := hres1.1; simp only [S0_ctx] at this; omega
+      | reg => simp only at hres1; have := hres1.1; simp only [S0_ctx] at this; omega
+    have hmid := poll_mid_spec hrest1 (by simp only; omega)
+    simp only
+    generalize midBody sc { o1 with ctx := false } v1 = res2 at hmid
+    obtain ⟨fut', o', v', r'⟩ := res2
+    obtain ⟨hrest', hme', hmono', hmeas', _, hres'⟩ := hmid
+    simp only at hrest' hme' hmono' hmeas' hres'
+    have hdr := dr_lt_K sc
+    have h43 := K4 sc 2
+    have h42 := K4 sc 1
+    have h41 := K4 sc 0
+    have hbound : Spot sc fut' o' v' ≤ Spot sc .mid { o1 with ctx := false } v1 + sc.dr := by
+      cases r' with
+      | pending pd' =>
+        cases pd' with
+        | self => simp only at hres'; omega
+        | reg => simp only at hres'; omega
+      | ready u => cases u; simp only at hres'; omega
+      | err => exact absurd hres' id
+      | panic => exact absurd hres' id
+    have hfirst : Spot sc fut' o' v' + K sc + 1 ≤ Spot sc .start o v := by
+      simp only [Spot, rank, S0_ctx] at hbound ⊢
+      omega
+    refine ⟨hrest', hme'.trans hme, hmono.trans hmono', Nat.le_trans hmeas' hmeas, fun _ => hfirst, ?_⟩
+    dsimp only
+    cases r' with
+    | pending pd' =>
+      cases pd' with
+      | self =>
+        simp only at hres'
+        exact ⟨hres'.1, by omega, hres'.2.2⟩
+      | reg =>
+        simp only at hres'
+        obtain ⟨h1, _, _, h4, h5, h6, t, h7⟩ := hres'
+        refine ⟨h1, Or.inl rfl, by omega, h4, h5, h6, t, ?_⟩
+        rw [h7]; dsimp only; rw [hme]
+    | ready u =>
+      cases u
+      simp only at hres'
+      refine ⟨hres'.1, ?_, hres'.2.2⟩
+      have := hres'.2.1
+      simp only [Spot, rank, S0_ctx] at this ⊢
+      omega
+    | err => exact absurd hres' id
+    | panic => exact absurd hres' id
 
 end Compio.TlsShim
